@@ -5,6 +5,7 @@ from __future__ import annotations
 import itertools
 
 from mc import domains as D
+from mc.alias import Keeper
 from mc.rec import Rec, unhex
 from ref import pus as RP
 from ref.crc16 import crc16
@@ -28,25 +29,52 @@ RULE = (
     "declared total length 7 <= P < 15+T x every APID x sequence-count alphabet x 3 continuations (none, a following valid "
     "TM, zeros): a CRC-consistent octet string whose only fault is the declared length. Distinct non-trivial: not produced "
     "by an earlier part of the enumeration (pairs/triples count only with all chosen values non-default; the parts use "
-    "different source data so they are disjoint by construction); a forged buffer counts only when octet 6 reads as PUS-C."
+    "different source data so they are disjoint by construction); a forged buffer counts only when octet 6 reads as PUS-C. "
+    "Conjunctions: timestamps of 33, 64, 255..257, 1024 octets and timestamps that (with the source data) exactly fill the space packet "
+    "(65 527 + 0, 65 526 + 1, ...; one octet more must not be encoded); every shaped source-data length x every timestamp length of the "
+    "quick alphabet; every shaped source-data length x every edge value of every field under timestamp lengths {0,7} (thorough {0,2,7,16}); "
+    "every subset of the optional constructor arguments of PusTm (128), Service17Tm (32), PusTmSecondaryHeader (4) omitted (documented "
+    "defaults), twice in a row, under each history timestamp length; the decoder is also handed a bytearray followed by neighbouring octets "
+    "which the caller overwrites afterwards. "
+    "Histories (engine H, stateless): ONE telemetry object, started in each of 5 ways (PusTm constructor, PusTm.unpack, from_composite_fields, "
+    "Service17Tm constructor, Service17Tm.unpack - events then go to wrapper.pus_tm and pack() through the wrapper) from each of 4 backgrounds "
+    "under each timestamp length, is driven through EVERY sequence of D events of the menu {pack(), pack(recalc_crc=False), calc_crc(), "
+    "to_space_packet(), construct+pack+view+decode (PusTm and Service17Tm) of an unrelated telemetry packet with a 5-octet timestamp, "
+    "apid= (2 values), seq_flags= (2), tm_data= (shorter, equal, longer)} = 12 events; a plain dict holds the values last set; after the start "
+    "and after every event: every accessor, data length, packet_len, == (both directions) with a fresh telemetry object composed from the "
+    "model's values; every octet string a reading event returns = ref/pus.py of the model; crc16 right after the events that calculate it; "
+    "pack(recalc_crc=False) judged only while no setter ran since the last CRC calculation (its documented precondition). A history is "
+    "distinct by (background, timestamp length, start, event sequence). "
+    "Independence (mc.alias.Keeper): every object the library hands out in the vector scripts (constructed / decoded PusTm, Service17Tm, "
+    "decoded PusTmSecondaryHeader, from_composite_fields objects, the very bytearray pack() returned, the space-packet views) is held and "
+    "observed again (accessors + pack()) after the rest of its own script and after the complete script of the next vector of the enumeration "
+    "(which differs in at least one field value or in the timestamp length); a change is a violation whose replay is the shard."
 )
 BOUNDS = {
     "quick": "K=4; timestamp lengths {0,1,2,6,7,8,12,16}; triples crossed with lengths {0,7}; N=4096; reject seq count in edge(14); "
              "space-packet view + check_pus_crc on: every value of fields <= 11 bit, walk(n) and every 17th value of the 14/16-bit "
              "fields, covering arrays (index sum = 0 mod 4) of pairs/triples/4-value product, <=1-octet strings and 2-octet strings "
-             "with (b0+b1) mod 16 = 0, all shaped lengths, every 4th wrapper vector",
+             "with (b0+b1) mod 16 = 0, all shaped lengths, every 4th wrapper vector; histories: D=3 (1 728 per start), timestamp lengths {0,2,7} x 4 "
+             "backgrounds x 5 start states = 60 starts; independence: all vector shards",
     "thorough": "K=8; timestamp lengths 0..32; triples crossed with {0,1,2,6,7,8,12,16}; N=65536; reject seq count in walk(14); "
-                "space-packet view + check_pus_crc on every vector",
+                "space-packet view + check_pus_crc on every vector; histories: D=4 (20 736 per start), timestamp lengths {0,1,2,6,7,8,12,16} x 4 backgrounds x 5 "
+                "start states = 160 starts; independence: all vector shards",
 }
 ASSUMPTIONS = [
     "ref/pus.py, ref/ccsds.py, ref/crc16.py transcribe ECSS-E-ST-70-41C / CCSDS 133.0-B-2 (bound to the repository's expected vectors by selftest/st_ref_pus.py)",
     "two arbitrary non-edge values in two different fields at once are only covered in the K backgrounds",
-    "timestamps longer than 32 octets and source data between 18 octets and the limit are represented by lengths 255, 256, 257, 1024 only",
+    "timestamps longer than 32 octets are represented by 33, 64, 255, 256, 257, 1024 and the packet-filling lengths; source data between 18 octets and the "
+    "limit by lengths 255, 256, 257, 1024 only",
+    "histories longer than D events, and setter values other than the two or three per property, are not explored; attributes of the component objects "
+    "(space_packet_header.*, pus_tm_sec_header.*) are not written directly - only the setters the PusTm class itself offers (apid, seq_flags, tm_data)",
+    "independence is observed across adjacent vectors of the fixed enumeration order (ring of 2 scripts), not across arbitrary pairs",
 ]
 
 AXES = ("service", "subservice", "apid", "seq_count", "message_counter", "dest_id", "time_ref", "packet_version")
 BITS = (8, 8, 11, 14, 16, 16, 4, 3)
 TS_Q = [0, 1, 2, 6, 7, 8, 12, 16]
+TS_BIG = [33, 64, 255, 256, 257, 1024]  # beyond any standard time code: "timestamp of any length"
+TS_LIMIT = [(65527, 0), (65526, 1), (65525, 2), (65000, 527), (32768, 32759)]  # (timestamp length, source data length) that exactly fill a space packet
 BG_TSLEN = [0, 7, 16, 1, 2, 12, 6, 8]
 BG_DATA = [b"", b"\xff", b"\x55\xaa", b"\xaa\x55", b"\x01", b"\xfe\xff", b"\x80", b"\x7f\x00"]
 PAIR_DATA = [b"", b"\xd2", b"\xd2\x2d"]
@@ -81,8 +109,12 @@ def octets_of(spec) -> bytes:
     if spec[0] == "shaped":
         return D.shaped(spec[1])[spec[2]]
     if spec[0] == "stamp":  # a timestamp-looking string of the given length (CDS P-field first)
-        return STAMP[: spec[1]]
+        return stamp_of(spec[1])
     raise AssertionError(spec)
+
+
+def stamp_of(T: int) -> bytes:
+    return STAMP[:T] if T <= len(STAMP) else STAMP + bytes((i * 7 + 3) & 0xFF for i in range(T - len(STAMP)))
 
 
 def shards(tier):
@@ -94,15 +126,25 @@ def shards(tier):
         for p in range(parts):
             items.append({"kind": "sweep", "axis": axis, "lo": (1 << n) * p // parts, "hi": (1 << n) * (p + 1) // parts, "k": k, "all_deep": deep})
     items.append({"kind": "ts-lengths", "lens": ts_lengths(tier), "k": k})
+    items.append({"kind": "ts-lengths", "lens": TS_BIG, "k": k})
+    items.append({"kind": "ts-limit"})
     parts = 4 if tier == "quick" else 16
     for p in range(parts):
         items.append({"kind": "ts-bytes", "bg": 0, "part": p, "parts": parts, "all_deep": deep})
     for tslen in (0, 7):
         for p in range(parts):
             items.append({"kind": "data-bytes", "bg": 1, "tslen": tslen, "part": p, "parts": parts, "all_deep": deep})
-    for tslen in TS_Q[:4] if tier == "quick" else TS_Q:
+    for tslen in TS_Q:
         items.append({"kind": "lengths", "bg": tslen % 2, "tslen": tslen})
+    for axis in range(8):
+        items.append({"kind": "len-x-edge", "axis": axis, "lens": [0, 7] if tier == "quick" else [0, 2, 7, 16]})
+    for T in H_TS[tier]:
+        items.append({"kind": "defaults", "T": T})
     items.append({"kind": "oversize"})
+    for T in H_TS[tier]:
+        for kk in range(H_K):
+            for mode in H_MODES:
+                items.append({"kind": "history", "k": kk, "T": T, "mode": mode, "depth": h_depth(tier)})
     pairs = list(itertools.combinations(range(8), 2))
     for chunk in D.chunks(pairs, 7 if tier == "quick" else 28):
         items.append({"kind": "tuples", "axes": [list(c) for c in chunk], "lens": ts_lengths(tier), "datas": [0, 1, 2], "all_deep": deep})
@@ -174,15 +216,54 @@ def short(b):
     return b if len(b) <= 72 else b[:40] + b"...." + b[-16:]
 
 
-def check_tm(rec: Rec, f, ts_spec, data_spec, nontrivial=True, routes=False, deep=True):
+def keep_obs(o):
+    """copying observation of a telemetry object held by the Keeper: every accessor and its octets"""
+    x = observe(o)
+    return x[:11] + x[12:14] + (bytes(o.pack()),)
+
+
+KEEP_ROUTES = {"sweep": False, "ts-bytes": False, "data-bytes": False, "ts-lengths": True, "lengths": True, "tuples": True, "quad": True,
+               "srv17": False, "srv17-walk": False}  # shard kinds run with the independence oracle -> do their vectors use the alternative constructors
+
+
+def keep_hdr(h):
+    return (h.service, h.subservice, h.message_counter, h.dest_id, int(h.spacecraft_time_ref), bytes(h.timestamp), h.header_size, bytes(h.pack()))
+
+
+def keep_view(sp):
+    return bytes(sp.pack())
+
+
+def keep_depth(routes: bool, deep: bool) -> int:
+    """ring size of the Keeper = twice the number of results one vector hands out, so that every result is
+    observed again after the rest of its own script and after the complete script of the next vector"""
+    return 2 * (3 + (2 if deep else 0) + (3 if routes else 0))
+
+
+def check_tm(rec: Rec, f, ts_spec, data_spec, nontrivial=True, routes=False, deep=True, keeper=None):
+    """one telemetry vector: the fixed script, then (independence clause) everything the library handed out for
+    the previous vectors of the shard is observed again"""
+    case = {"kind": "tm", "f": list(f), "ts": list(ts_spec), "data": list(data_spec)}
+    try:
+        _tm_script(rec, case, f, ts_spec, data_spec, nontrivial, routes, deep, keeper)
+    finally:
+        if keeper is not None:
+            keeper.recheck(case)
+
+
+def _tm_script(rec: Rec, case, f, ts_spec, data_spec, nontrivial, routes, deep, keeper):
     """the fixed script of operations for one telemetry vector (deep: see checks/c02.py check_tc)"""
     m = _tm()
     svc, sub, apid, cnt, mc, dest, tref, ver = f
     ts, data = octets_of(ts_spec), octets_of(data_spec)
     T = len(ts)
     ref = RP.tm(svc, sub, ts, data, apid, cnt, mc, tref, dest, ver)
-    case = {"kind": "tm", "f": list(f), "ts": list(ts_spec), "data": list(data_spec)}
-    rec.case(nontrivial, ops=11 + (3 if deep else 0) + (5 if routes else 0))
+
+    def hold(subject, obj, obs):
+        if keeper is not None:
+            keeper.hold(subject, obj, obs, case)
+
+    rec.case(nontrivial, ops=11 + (3 if deep else 0) + (8 if routes else 0))
     if deep:
         rec.count("vectors_with_space_packet_view_and_check_pus_crc")
     if len(ref) <= 40 and any(f):
@@ -198,9 +279,12 @@ def check_tm(rec: Rec, f, ts_spec, data_spec, nontrivial=True, routes=False, dee
     try:
         tm = m.PusTm(service=svc, subservice=sub, timestamp=ts, source_data=data, apid=apid, seq_count=cnt, message_counter=mc,
                      space_time_ref=tref, destination_id=dest, packet_version=ver)
-        raw = bytes(tm.pack())
+        raw_obj = tm.pack()
+        raw = bytes(raw_obj)
     except Exception as e:
         return bad("encode/PusTm.pack/exception/" + type(e).__name__, repr(e), short(ref))
+    hold("PusTm.pack", raw_obj, bytes)
+    hold("PusTm()", tm, keep_obs)
     if raw != ref:
         return bad("encode/PusTm.pack/octets/" + _region(raw, ref, T), short(raw), short(ref))
     if tm.packet_len != len(ref):
@@ -217,9 +301,11 @@ def check_tm(rec: Rec, f, ts_spec, data_spec, nontrivial=True, routes=False, dee
         from spacepackets.ecss import check_pus_crc
 
         try:
-            view = bytes(tm.to_space_packet().pack())
+            sp = tm.to_space_packet()
+            view = bytes(sp.pack())
             if view != ref:
                 bad("view/PusTm.to_space_packet/octets/" + _region(view, ref, T), short(view), short(ref))
+            hold("PusTm.to_space_packet", sp, keep_view)
         except Exception as e:
             bad("view/PusTm.to_space_packet/exception/" + type(e).__name__, repr(e), None)
         if check_pus_crc(ref) is not True:
@@ -233,15 +319,18 @@ def check_tm(rec: Rec, f, ts_spec, data_spec, nontrivial=True, routes=False, dee
     if obs != exp:
         name = next(n for n, a, b in zip(OBS, obs, exp) if a != b)
         return bad("decode/PusTm.unpack/field=" + name, [short(x) for x in obs], [short(x) for x in exp])
+    hold("PusTm.unpack", u, keep_obs)
     if not (u == tm and tm == u):
         bad("inverse/PusTm.unpack/decoded-not-equal-original")
     re = bytes(u.pack())
     if re != ref:
         bad("inverse/unpack-then-pack/octets/" + _region(re, ref, T), short(re), short(ref))
     if deep:
-        view = bytes(u.to_space_packet().pack())
+        sp = u.to_space_packet()
+        view = bytes(sp.pack())
         if view != ref:
             bad("view/decoded.to_space_packet/octets/" + _region(view, ref, T), short(view), short(ref))
+        hold("decoded.to_space_packet", sp, keep_view)
     rec.outcome("roundtrip-ok/ts%d" % T)
     if routes:
         from spacepackets.ccsds.spacepacket import PacketType, SequenceFlags, SpacePacketHeader
@@ -259,6 +348,16 @@ def check_tm(rec: Rec, f, ts_spec, data_spec, nontrivial=True, routes=False, dee
             got = (sh.service, sh.subservice, sh.message_counter, sh.dest_id, int(sh.spacecraft_time_ref), bytes(sh.timestamp), sh.header_size)
             if got != (svc, sub, mc, dest, tref, ts, 7 + T) or bytes(sh.pack()) != ref[6:13 + T]:
                 bad("decode/PusTmSecondaryHeader.unpack/fields", [short(x) for x in got], [svc, sub, mc, dest, tref, short(ts), 7 + T])
+            # the other input form: the decoder is handed the bytearray pack() returns (followed by neighbouring octets), and the
+            # caller's buffer is reused afterwards - what was decoded from it is a value, not a view of that buffer
+            buf = bytearray(ref) + bytearray(b"\xa5" * 3)
+            v = m.PusTm.unpack(buf, T)
+            for i in range(len(buf)):
+                buf[i] ^= 0xFF
+            if observe(v) != exp or bytes(v.pack()) != ref or not v == tm:
+                bad("decode/PusTm.unpack(bytearray)/fields-after-the-buffer-was-reused", [short(x) for x in observe(v)], [short(x) for x in exp])
+            hold("PusTmSecondaryHeader.unpack", sh, keep_hdr)
+            hold("PusTm.from_composite_fields", c, keep_obs)
         except Exception as e:
             bad("encode/alternative-constructors/exception/" + type(e).__name__, repr(e), None)
 
@@ -267,7 +366,16 @@ S17_AXES = ("subservice", "apid", "seq_count", "dest_id", "time_ref", "packet_ve
 S17_BITS = (8, 11, 14, 16, 4, 3)
 
 
-def check_srv17(rec: Rec, f, ts_spec, data_spec, nontrivial=True, deep=True):
+def check_srv17(rec: Rec, f, ts_spec, data_spec, nontrivial=True, deep=True, keeper=None):
+    case = {"kind": "srv17", "f": list(f), "ts": list(ts_spec), "data": list(data_spec)}
+    try:
+        _srv17_script(rec, case, f, ts_spec, data_spec, nontrivial, deep, keeper)
+    finally:
+        if keeper is not None:
+            keeper.recheck(case)
+
+
+def _srv17_script(rec: Rec, case, f, ts_spec, data_spec, nontrivial, deep, keeper):
     """the service-17 wrapper: pack, unpack, accessor properties"""
     from spacepackets.ecss.pus_17_test import Service17Tm
 
@@ -275,7 +383,11 @@ def check_srv17(rec: Rec, f, ts_spec, data_spec, nontrivial=True, deep=True):
     ts, data = octets_of(ts_spec), octets_of(data_spec)
     T = len(ts)
     ref = RP.srv17_tm(sub, ts, data, apid, cnt, tref, dest, ver)
-    case = {"kind": "srv17", "f": list(f), "ts": list(ts_spec), "data": list(data_spec)}
+
+    def hold(subject, obj, obs):
+        if keeper is not None:
+            keeper.hold(subject, obj, obs, case)
+
     rec.case(nontrivial, ops=8 + (1 if deep else 0))
     if any(f):
         rec.sample({"service17_tm": dict(zip(S17_AXES, f)), "timestamp": ts.hex(), "source_data": data.hex(), "expected_octets": ref.hex()}, limit=1)
@@ -295,9 +407,12 @@ def check_srv17(rec: Rec, f, ts_spec, data_spec, nontrivial=True, deep=True):
            int.from_bytes(ref[2:4], "big"))
     try:
         w = Service17Tm(apid=apid, subservice=sub, timestamp=ts, ssc=cnt, source_data=data, packet_version=ver, space_time_ref=tref, destination_id=dest)
-        raw = bytes(w.pack())
+        raw_obj = w.pack()
+        raw = bytes(raw_obj)
     except Exception as e:
         return bad("wrapper/Service17Tm.pack/exception/" + type(e).__name__, repr(e), short(ref))
+    hold("Service17Tm.pack", raw_obj, bytes)
+    hold("Service17Tm()", w, lambda x: acc(x) + (bytes(x.pack()),))
     if raw != ref:
         return bad("wrapper/Service17Tm.pack/octets/" + _region(raw, ref, T), short(raw), short(ref))
     if acc(w) != exp:
@@ -309,6 +424,7 @@ def check_srv17(rec: Rec, f, ts_spec, data_spec, nontrivial=True, deep=True):
     if acc(u) != exp:
         name = next(i for i, (a, b) in enumerate(zip(acc(u), exp)) if a != b)
         return bad("wrapper/Service17Tm.unpack/accessor#%d" % name, [short(x) for x in acc(u)], [short(x) for x in exp])
+    hold("Service17Tm.unpack", u, lambda x: acc(x) + (bytes(x.pack()),))
     if bytes(u.pack()) != ref:
         bad("wrapper/Service17Tm.unpack-then-pack/octets", short(bytes(u.pack())), short(ref))
     if not (u.pus_tm == w.pus_tm and w.pus_tm == _tm().PusTm.unpack(ref, T)):
@@ -327,7 +443,7 @@ def check_oversize(rec: Rec, T, extra, idx):
     case = {"kind": "oversize", "T": T, "extra": extra, "idx": idx}
     rec.case(True, ops=1)
     try:
-        raw = m.PusTm(service=17, subservice=2, timestamp=STAMP[:T], source_data=data, apid=1).pack()
+        raw = m.PusTm(service=17, subservice=2, timestamp=stamp_of(T), source_data=data, apid=1).pack()
     except Exception as e:
         rec.outcome("oversize-refused:" + type(e).__name__)
         return
@@ -403,10 +519,296 @@ def tails(T):
     return [b"", RP.tm(17, 2, STAMP[:T], b"", apid=1, seq_count=5), bytes(24)]
 
 
+
+# ---------------------------------------------------- entry-point forms: omitted keyword arguments
+OPT_TM = ("source_data", "apid", "seq_count", "message_counter", "space_time_ref", "destination_id", "packet_version")  # documented defaults: b"", 0 ...
+OPT_S17 = ("ssc", "source_data", "packet_version", "space_time_ref", "destination_id")
+OPT_HDR = ("dest_id", "spacecraft_time_ref")
+
+
+def check_defaults(rec: Rec, ctor, k, T, mask, rnd, keeper=None):
+    """<ctor>(<required arguments>, <the optional arguments selected by mask>): every omitted one takes the documented default (0 / empty)"""
+    m = _tm()
+    svc, sub, apid, cnt, mc, dest, tref, ver = (x or 1 for x in background(k))  # all given values differ from the defaults
+    ts, data = stamp_of(T), BG_DATA[k] or b"\x0d"
+    case = {"kind": "defaults", "ctor": ctor, "k": k, "T": T, "mask": mask, "round": rnd}
+    given = {"source_data": data, "apid": apid, "seq_count": cnt, "ssc": cnt, "message_counter": mc, "space_time_ref": tref, "spacecraft_time_ref": tref,
+             "destination_id": dest, "dest_id": dest, "packet_version": ver}
+    names = {"PusTm": OPT_TM, "Service17Tm": OPT_S17, "PusTmSecondaryHeader": OPT_HDR}[ctor]
+    kw = {n: given[n] for i, n in enumerate(names) if mask >> i & 1}
+
+    def g(*aliases):
+        return next((kw[a] for a in aliases if a in kw), None)
+
+    rec.case(rnd == 0 and mask != (1 << len(names)) - 1, ops=4)  # all given = a vector of the other parts; second round = same vectors again
+    try:
+        if ctor == "PusTmSecondaryHeader":
+            ref = RP.tm_sec_header(g("spacecraft_time_ref") or 0, svc, sub, mc, g("dest_id") or 0, ts)
+            o = m.PusTmSecondaryHeader(service=svc, subservice=sub, timestamp=ts, message_counter=mc, **kw)
+            u = m.PusTmSecondaryHeader.unpack(ref, T)
+            obs = keep_hdr
+        else:
+            if ctor == "Service17Tm":
+                svc = 17
+            ref = RP.tm(svc, sub, ts, g("source_data") or b"", g("apid") or 0 if ctor == "PusTm" else apid, g("seq_count", "ssc") or 0, g("message_counter") or 0,
+                        g("space_time_ref") or 0, g("destination_id") or 0, g("packet_version") or 0)
+            if ctor == "PusTm":
+                o = m.PusTm(service=svc, subservice=sub, timestamp=ts, **kw)
+                u = m.PusTm.unpack(ref, T)
+                obs = keep_obs
+            else:
+                o = _s17()(apid=apid, subservice=sub, timestamp=ts, **kw)
+                u = _s17().unpack(ref, T)
+                obs = lambda w: keep_obs(w.pus_tm)  # noqa: E731
+        raw_obj = o.pack()
+        if bytes(raw_obj) != ref:
+            rec.violation("C03.encode/%s(omitted-arguments)/octets" % ctor, case, short(bytes(raw_obj)), short(ref), repro="%s(<required>, **%r).pack()" % (ctor, kw))
+        elif obs(u) != obs(o) or not (u == o if ctor != "Service17Tm" else u.pus_tm == o.pus_tm):
+            rec.violation("C03.encode/%s(omitted-arguments)/fields" % ctor, case, [short(x) for x in obs(o)], [short(x) for x in obs(u)])
+        elif keeper is not None:
+            keeper.hold(ctor + ".pack", raw_obj, bytes, case)
+            keeper.hold(ctor + "()", o, obs, case)
+            keeper.hold(ctor + ".unpack", u, obs, case)
+        rec.outcome("defaults-ok/%s/%d-omitted" % (ctor, len(names) - bin(mask).count("1")))
+    except Exception as e:
+        rec.violation("C03.encode/%s(omitted-arguments)/exception/%s" % (ctor, type(e).__name__), case, repr(e), None)
+    finally:
+        if keeper is not None:
+            keeper.recheck(case)
+
+
+# ------------------------------------------------------------------- histories (engine H)
+# One telemetry OBJECT is driven through every sequence of public operations under each timestamp length; a plain
+# dict (the model) holds the values last set.  The property speaks about "the packed telemetry", its re-packing and
+# its generic space-packet view for every value of the fields, every source data and every timestamp length: it
+# holds for the values the object has NOW, however they got there (constructor, decoder, property setter) and
+# whatever was read from the object before.
+H_SET = {
+    "apid": [0x7FF, 0x2AA],
+    "seq_flags": [1, 2],  # FIRST_SEGMENT, LAST_SEGMENT: each of the two bits in the other polarity than UNSEGMENTED
+    "tm_data": [b"", b"\x5a", b"\x01\x02\x03\x04\x05"],  # shorter / as long as / longer than the start values' source data
+}
+H_READ = ["pack", "pack(recalc_crc=False)", "calc_crc", "to_space_packet", "decode-another"]
+H_EVENTS = H_READ + ["%s=%d" % (k, i) for k in ("apid", "seq_flags", "tm_data") for i in range(len(H_SET[k]))]
+H_MODES = ["constructed", "decoded", "from_composite_fields", "Service17Tm()", "Service17Tm.unpack"]
+H_KEYS = ("service", "subservice", "timestamp", "source_data", "apid", "seq_count", "msg_counter", "time_ref", "dest_id", "version", "seq_flags")
+H_OTHER = dict(service=0xC3, subservice=0x3C, timestamp=b"\xa1\xa2\xa3\xa4\xa5", source_data=b"\xde\xad\xbe\xef\x99\x77", apid=0x123, seq_count=0x0ABC,
+               msg_counter=0x2468, time_ref=0b0110, dest_id=0x1357, version=0b101, seq_flags=3)
+H_TS = {"quick": [0, 2, 7], "thorough": TS_Q}
+H_K = 4
+_REF_MEMO = {}
+
+
+def h_depth(tier):
+    return 3 if tier == "quick" else 4
+
+
+def h_ref(model) -> bytes:
+    key = tuple(model[k] for k in H_KEYS)
+    r = _REF_MEMO.get(key)
+    if r is None:
+        r = _REF_MEMO[key] = RP.tm(**model)
+    return r
+
+
+def h_start(k, T, mode):
+    svc, sub, apid, cnt, mc, dest, tref, ver = background(k)
+    if mode.startswith("Service17Tm"):  # the wrapper fixes service 17 and offers no message counter
+        svc, mc = 17, 0
+    return dict(service=svc, subservice=sub, timestamp=STAMP[:T], source_data=BG_DATA[k], apid=apid, seq_count=cnt, msg_counter=mc, time_ref=tref,
+                dest_id=dest, version=ver, seq_flags=3)
+
+
+def h_twin(m, v):
+    """a fresh telemetry object with the model's values, built from its parts (no setter involved)"""
+    from spacepackets.ccsds.spacepacket import PacketType, SequenceFlags, SpacePacketHeader
+
+    return m.PusTm.from_composite_fields(
+        SpacePacketHeader(PacketType.TM, v["apid"], v["seq_count"], len(h_ref(v)) - 7, True, SequenceFlags(v["seq_flags"]), v["version"]),
+        m.PusTmSecondaryHeader(service=v["service"], subservice=v["subservice"], timestamp=v["timestamp"], message_counter=v["msg_counter"],
+                               dest_id=v["dest_id"], spacecraft_time_ref=v["time_ref"]), v["source_data"])
+
+
+def h_make(m, mode, v):
+    """-> (telemetry object the events are applied to, object whose pack() is read)"""
+    if mode == "constructed":
+        o = m.PusTm(service=v["service"], subservice=v["subservice"], timestamp=v["timestamp"], source_data=v["source_data"], apid=v["apid"],
+                    seq_count=v["seq_count"], message_counter=v["msg_counter"], space_time_ref=v["time_ref"], destination_id=v["dest_id"],
+                    packet_version=v["version"])
+        return o, o
+    if mode == "decoded":
+        o = m.PusTm.unpack(h_ref(v), len(v["timestamp"]))
+        return o, o
+    if mode == "from_composite_fields":
+        o = h_twin(m, v)
+        return o, o
+    if mode == "Service17Tm()":
+        w = _s17()(apid=v["apid"], subservice=v["subservice"], timestamp=v["timestamp"], ssc=v["seq_count"], source_data=v["source_data"],
+                   packet_version=v["version"], space_time_ref=v["time_ref"], destination_id=v["dest_id"])
+        return w.pus_tm, w
+    if mode == "Service17Tm.unpack":
+        w = _s17().unpack(h_ref(v), len(v["timestamp"]))
+        return w.pus_tm, w
+    raise AssertionError(mode)
+
+
+H_PURE = ("service", "subservice", "apid", "seq_count", "message_counter", "dest_id", "time_ref", "packet_version", "timestamp", "tm_data", "source_data",
+          "data_len", "packet_len", "packet_type", "sec_header_flag", "seq_flags", "wrapper.service", "wrapper.subservice", "wrapper.timestamp",
+          "wrapper.source_data", "wrapper.data_len")
+
+
+def h_pure(o, w):
+    """observations that are plain attribute reads (no cache is filled by making them); w is o or the service-17 wrapper around it"""
+    x = observe(o)
+    return x[:11] + x[12:] + (w.service, w.subservice, bytes(w.timestamp), bytes(w.source_data), w.sp_header.data_len)
+
+
+def h_expected(v):
+    ref = h_ref(v)
+    return (v["service"], v["subservice"], v["apid"], v["seq_count"], v["msg_counter"], v["dest_id"], v["time_ref"], v["version"], v["timestamp"],
+            v["source_data"], v["source_data"], len(ref) - 7, len(ref), 0, 1, v["seq_flags"], v["service"], v["subservice"], v["timestamp"],
+            v["source_data"], len(ref) - 7)
+
+
+def run_history(rec: Rec, k, T, mode, events, nontrivial=True):
+    """executes one history on a fresh object; after the start and after every event the pure observations are
+    compared with the model, and what a reading event returns is compared with the reference octets of the model.
+    crc16 is demanded right after the operations that (re)calculate it; pack(recalc_crc=False) is judged only
+    while no setter ran since the last calculation (its documented precondition)."""
+    m = _tm()
+    model = h_start(k, T, mode)
+    rec.case(nontrivial, ops=0)
+    state = {"i": -1, "failed": False}
+
+    def bad(kind, observed=None, expected=None):
+        i = state["i"]
+        state["failed"] = True
+        case = {"kind": "history", "k": k, "T": T, "mode": mode, "events": list(events[: i + 1])}
+        lines = ["model = %r" % (h_start(k, T, mode),), "tm = <%s from model>" % mode] + ["tm: " + e for e in events[: i + 1]]
+        rec.violation("C03.history/" + kind, case, observed, expected, repro="; ".join(lines),
+                      note="start values: background %d with a %d-octet timestamp, start state: %s; setter values: %r; the expected octets are ref/pus.py of the values last set"
+                           % (k, T, mode, {n: [x.hex() if isinstance(x, bytes) else x for x in vs] for n, vs in H_SET.items()}))
+
+    def pure(after):
+        exp = h_expected(model)
+        try:
+            obs = h_pure(o, w)
+        except Exception as e:
+            return bad("%s/then-accessors/exception/%s" % (after, type(e).__name__), repr(e), None)
+        rec.ops += 1
+        if obs != exp:
+            name = next(n for n, a, b in zip(H_PURE, obs, exp) if a != b)
+            return bad("%s/then/field=%s" % (after, name), [short(x) for x in obs], [short(x) for x in exp])
+        twin = h_twin(m, model)
+        if not (o == twin and twin == o):
+            bad("%s/then/not-equal-to-a-fresh-telemetry-with-the-same-values" % after)
+
+    try:
+        o, w = h_make(m, mode, model)
+    except Exception as e:
+        return bad("start=%s/exception/%s" % (mode, type(e).__name__), repr(e), None)
+    decoded = mode in ("decoded", "Service17Tm.unpack")
+    crc = "fresh" if decoded else "none"
+    pure("start=" + mode)
+    if decoded and (o.crc16 is None or bytes(o.crc16) != h_ref(model)[-2:]):
+        bad("start=%s/crc16" % mode, o.crc16, h_ref(model)[-2:])
+    for i, ev in enumerate(events):
+        if state["failed"]:
+            break  # simplest witness: the history up to the first deviation
+        state["i"] = i
+        rec.ops += 1
+        ref = h_ref(model)
+        name = "PusTm." + ev.split("=")[0]
+        try:
+            if ev == "pack":
+                out = bytes(w.pack())  # through the wrapper where there is one
+                crc = "fresh"
+                if out != ref:
+                    bad("PusTm.pack/octets/" + _region(out, ref, T), short(out), short(ref))
+            elif ev == "pack(recalc_crc=False)":
+                out = bytes(o.pack(recalc_crc=False))
+                if crc == "stale":
+                    rec.count("history_pack_without_recalc_on_stale_crc_not_judged")
+                else:
+                    crc = "fresh"
+                    if out != ref:
+                        bad("PusTm.pack(recalc_crc=False)/octets/" + _region(out, ref, T), short(out), short(ref))
+                name = None
+            elif ev == "calc_crc":
+                o.calc_crc()
+                crc = "fresh"
+            elif ev == "to_space_packet":
+                sp = o.to_space_packet()
+                crc = "fresh"
+                out = bytes(sp.pack())
+                if out != ref:
+                    bad("PusTm.to_space_packet/octets/" + _region(out, ref, T), short(out), short(ref))
+                elif (sp.apid, sp.seq_count) != (model["apid"], model["seq_count"]):
+                    bad("PusTm.to_space_packet/accessors", (sp.apid, sp.seq_count), (model["apid"], model["seq_count"]))
+            elif ev == "decode-another":
+                # an unrelated telemetry packet with another timestamp length is built, packed, viewed and decoded in
+                # between (also through the wrapper's decoder): must not touch this one
+                v = H_OTHER
+                other_ref = h_ref(v)
+                x = m.PusTm(service=v["service"], subservice=v["subservice"], timestamp=v["timestamp"], source_data=v["source_data"], apid=v["apid"],
+                            seq_count=v["seq_count"], message_counter=v["msg_counter"], space_time_ref=v["time_ref"], destination_id=v["dest_id"],
+                            packet_version=v["version"])
+                y = m.PusTm.unpack(other_ref, len(v["timestamp"]))
+                z = _s17().unpack(other_ref, len(v["timestamp"]))
+                if (bytes(x.pack()) != other_ref or bytes(y.pack()) != other_ref or bytes(z.pack()) != other_ref or bytes(y.to_space_packet().pack()) != other_ref
+                        or h_pure(y, z) != h_expected(v)):
+                    bad("another-telemetry/octets", short(bytes(y.pack())), short(other_ref))
+                name = None
+            else:
+                field, idx = ev.split("=")
+                val = H_SET[field][int(idx)]
+                if field == "seq_flags":
+                    from spacepackets.ccsds.spacepacket import SequenceFlags
+
+                    o.seq_flags = SequenceFlags(val)
+                    model["seq_flags"] = val
+                elif field == "tm_data":
+                    o.tm_data = val
+                    model["source_data"] = val
+                else:
+                    setattr(o, field, val)
+                    model[field] = val
+                if crc == "fresh":
+                    crc = "stale"
+                name = None
+        except Exception as e:
+            bad("PusTm.%s/exception/%s" % (ev.split("=")[0], type(e).__name__), repr(e), None)
+            break
+        if name is not None and crc == "fresh" and not state["failed"]:
+            c = o.crc16
+            if c is None or bytes(c) != ref[-2:]:
+                bad(name + "/then/crc16", c, ref[-2:])
+        if not state["failed"]:
+            pure("PusTm." + ev.split("=")[0] + ("=" if "=" in ev else ""))
+    rec.outcome("history-end/ts%d/crc-%s" % (T, crc))
+
+
+def run_histories(rec: Rec, item):
+    depth = item["depth"]
+    n = 0
+    for idx in itertools.product(range(len(H_EVENTS)), repeat=depth):
+        run_history(rec, item["k"], item["T"], item["mode"], [H_EVENTS[i] for i in idx])
+        n += 1
+    rec.count("histories_depth_%d" % depth, n)
+    rec.count("history_events_applied", n * depth)
+    rec.count("history_states", sum(len(H_EVENTS) ** d for d in range(depth + 1)))  # distinct (start, prefix) pairs
+    rec.sample({"history": {"start_values": {k_: (v.hex() if isinstance(v, bytes) else v) for k_, v in h_start(item["k"], item["T"], item["mode"]).items()},
+                            "start_state": item["mode"], "decoder_timestamp_len": item["T"], "events": [H_EVENTS[i] for i in idx], "event_menu": H_EVENTS},
+                "expected": "after every event: accessors, packet_len, == fresh object, and every octet string read = ref/pus.py of the values last set"}, limit=1)
+
+
 # ------------------------------------------------------------------------------ shards
 def run_shard(item):
     rec = Rec(PROPERTY, item)
     kind = item["kind"]
+    keeper = None
+    if kind in KEEP_ROUTES:
+        keeper = Keeper(rec, PROPERTY, depth=keep_depth(KEEP_ROUTES[kind], bool(item.get("all_deep")) or kind in ("ts-lengths", "lengths")))
     if kind == "sweep":
         axis = item["axis"]
         n = BITS[axis]
@@ -416,13 +818,13 @@ def run_shard(item):
             ts_spec, data_spec = ("stamp", BG_TSLEN[k]), ("hex", BG_DATA[k].hex())
             for v in range(item["lo"], item["hi"]):
                 deep = item["all_deep"] or n <= 11 or v % 17 == 0 or v in walk
-                check_tm(rec, bg[:axis] + (v,) + bg[axis + 1:], ts_spec, data_spec, nontrivial=not (v == bg[axis] and axis > 0), deep=deep)
+                check_tm(rec, bg[:axis] + (v,) + bg[axis + 1:], ts_spec, data_spec, nontrivial=not (v == bg[axis] and axis > 0), deep=deep, keeper=keeper)
         rec.count("sweep_values_" + AXES[axis], item["hi"] - item["lo"])
     elif kind == "ts-lengths":
         for k in range(item["k"]):
             for L in item["lens"]:
                 for idx in range(len(D.shaped(L))):  # shaped content differs from the 'stamp' content of the sweeps except for L = 0
-                    check_tm(rec, background(k), ("shaped", L, idx), ("hex", BG_DATA[k].hex()), nontrivial=not (L == 0 and BG_TSLEN[k] == 0), routes=True)
+                    check_tm(rec, background(k), ("shaped", L, idx), ("hex", BG_DATA[k].hex()), nontrivial=not (L == 0 and BG_TSLEN[k] == 0), routes=True, keeper=keeper)
                     rec.count("timestamp_lengths_x_contents")
     elif kind == "ts-bytes":
         k = item["bg"]
@@ -431,7 +833,7 @@ def run_shard(item):
         for t in allb[lo:hi]:
             deep = item["all_deep"] or len(t) <= 1 or (t[0] + t[1]) % 16 == 0
             dup = t in (b"", b"\x00", b"\xff", b"\x55", b"\x00\x00", b"\xff\xff", b"\x00\x01", b"\xff\xfe", b"\x55\xaa")  # shaped(0..2) of ts-lengths, bg 0
-            check_tm(rec, background(k), ("hex", t.hex()), ("hex", BG_DATA[k].hex()), nontrivial=not dup, deep=deep)
+            check_tm(rec, background(k), ("hex", t.hex()), ("hex", BG_DATA[k].hex()), nontrivial=not dup, deep=deep, keeper=keeper)
         rec.count("timestamps_len<=2", hi - lo)
     elif kind == "data-bytes":
         k = item["bg"]
@@ -439,7 +841,7 @@ def run_shard(item):
         lo, hi = len(allb) * item["part"] // item["parts"], len(allb) * (item["part"] + 1) // item["parts"]
         for d in allb[lo:hi]:
             deep = item["all_deep"] or len(d) <= 1 or (d[0] + d[1]) % 16 == 0
-            check_tm(rec, background(k), ("stamp", item["tslen"]), ("hex", d.hex()), nontrivial=not (d == BG_DATA[k] and item["tslen"] == BG_TSLEN[k]), deep=deep)
+            check_tm(rec, background(k), ("stamp", item["tslen"]), ("hex", d.hex()), nontrivial=not (d == BG_DATA[k] and item["tslen"] == BG_TSLEN[k]), deep=deep, keeper=keeper)
         rec.count("source_data_len<=2", hi - lo)
     elif kind == "lengths":
         T = item["tslen"]
@@ -448,13 +850,44 @@ def run_shard(item):
             for idx in range(len(D.shaped(L))):
                 # lengths 0..2 under timestamp lengths 0/7 are part of data-bytes (bg 1) when this shard also uses bg 1
                 dup = (L <= 2 and item["bg"] == 1 and T in (0, 7)) or (L == 0 and T == 0 and item["bg"] == 0)  # the latter is background 0 itself
-                check_tm(rec, background(item["bg"]), ("stamp", T), ("shaped", L, idx), nontrivial=not dup, routes=True)
+                check_tm(rec, background(item["bg"]), ("stamp", T), ("shaped", L, idx), nontrivial=not dup, routes=True, keeper=keeper)
                 rec.count("shaped_source_data")
+    elif kind == "history":
+        run_histories(rec, item)
+    elif kind == "defaults":
+        keeper = Keeper(rec, PROPERTY, depth=6)
+        for rnd in range(2):  # the second round shows a default value that the first round's use has changed
+            for ctor, names in (("PusTm", OPT_TM), ("Service17Tm", OPT_S17), ("PusTmSecondaryHeader", OPT_HDR)):
+                for k in range(4):
+                    for mask in range(1 << len(names)):
+                        check_defaults(rec, ctor, k, item["T"], mask, rnd, keeper)
+                        rec.count("omitted_argument_forms", 1 - rnd)
+    elif kind == "ts-limit":
+        keeper = Keeper(rec, PROPERTY, depth=keep_depth(True, True))
+        for T, L in TS_LIMIT:
+            assert L == RP.max_tm_source_data(T)
+            for k in range(2):
+                check_tm(rec, background(k), ("stamp", T), ("shaped", L, min(2, len(D.shaped(L)) - 1)), routes=True, keeper=keeper)
+                rec.count("timestamps_filling_the_packet")
+    elif kind == "len-x-edge":
+        axis = item["axis"]
+        keeper = Keeper(rec, PROPERTY, depth=keep_depth(False, True))
+        bg = background(0)
+        for T in item["lens"]:
+            mx = RP.max_tm_source_data(T)
+            for L in LENGTHS + [mx]:
+                for idx in (range(len(D.shaped(L))) if L <= 1024 else [2]):  # the largest that fits: incrementing content only
+                    for v in D.edge(BITS[axis]):
+                        # value 0 of this axis = background 0 itself = a vector of the lengths shard of this timestamp length when that uses bg 0
+                        check_tm(rec, bg[:axis] + (v,) + bg[axis + 1:], ("stamp", T), ("shaped", L, idx), nontrivial=v != 0 or (T % 2 == 1 and axis == 0), keeper=keeper)
+                        rec.count("length_x_edge_vectors")
     elif kind == "oversize":
         for T in (0, 7, 16):
             for extra in (1, 2, 4096):
                 for idx in range(5):
                     check_oversize(rec, T, extra, idx)
+        for T, extra in ((65527, 1), (65526, 2), (65528, 1), (65529, 2), (70000, 4474)):  # the timestamp alone (nearly) fills or overflows the packet
+            check_oversize(rec, T, extra, 0)
     elif kind == "tuples":
         e = [D.edge(n) for n in BITS]
         for axes in item["axes"]:
@@ -467,7 +900,7 @@ def run_shard(item):
                 for j, L in enumerate(item["lens"]):
                     for di in item["datas"]:
                         check_tm(rec, tuple(f), ("stamp", L), ("hex", PAIR_DATA[di].hex()), nontrivial=nt, deep=deep0 and (item["all_deep"] or (j + di) % 4 == 0),
-                                 routes=(j + di) % 2 == 0)
+                                 routes=(j + di) % 2 == 0, keeper=keeper)
                 rec.count("edge_%d-tuples" % len(axes))
     elif kind == "quad":
         al = [four(n) for n in BITS]
@@ -475,7 +908,7 @@ def run_shard(item):
             idx = (item["i"], item["j"]) + c
             f = tuple(al[a][i] for a, i in enumerate(idx))
             L = (0, 7)[sum(idx) % 2]
-            check_tm(rec, f, ("stamp", L), ("hex", QUAD_DATA.hex()), deep=item["all_deep"] or sum(idx) % 4 == 0, routes=True)
+            check_tm(rec, f, ("stamp", L), ("hex", QUAD_DATA.hex()), deep=item["all_deep"] or sum(idx) % 4 == 0, routes=True, keeper=keeper)
             rec.count("four_value_product_vectors")
     elif kind == "srv17":
         al = [four(n) for n in S17_BITS]
@@ -485,7 +918,7 @@ def run_shard(item):
             f = tuple(al[a][i] for a, i in enumerate(idx))
             for L in item["lens"]:
                 for di, d in enumerate(S17_DATA):
-                    check_srv17(rec, f, ("stamp", L), ("hex", d.hex()), deep=item["all_deep"] or n % 4 == 0)
+                    check_srv17(rec, f, ("stamp", L), ("hex", d.hex()), deep=item["all_deep"] or n % 4 == 0, keeper=keeper)
                     n += 1
         rec.count("srv17_vectors", n)
     elif kind == "srv17-walk":
@@ -494,7 +927,7 @@ def run_shard(item):
                 bg = tuple(D.backgrounds(b, 8)[k] for b in S17_BITS)
                 for v in D.full(nb) if nb <= 11 else D.walk(nb):
                     # the background vectors themselves are members of the 4-value product only with S17_DATA; this part uses other data
-                    check_srv17(rec, bg[:axis] + (v,) + bg[axis + 1:], ("stamp", (0, 7)[k]), ("hex", "a5"), nontrivial=not (v == bg[axis] and axis > 0))
+                    check_srv17(rec, bg[:axis] + (v,) + bg[axis + 1:], ("stamp", (0, 7)[k]), ("hex", "a5"), nontrivial=not (v == bg[axis] and axis > 0), keeper=keeper)
                     rec.count("srv17_walk_vectors")
     elif kind == "range":
         field = item["field"]
@@ -543,6 +976,8 @@ def run_shard(item):
                 for t in tl:
                     check_reject(rec, pkt + t, total, T, nontrivial=(w & 0x3FFF) not in seqs)
                 rec.count("reject_solved_packets")
+    if keeper is not None:
+        keeper.flush()
     return rec.result()
 
 
@@ -554,6 +989,10 @@ def replay(case):
         check_tm(rec, tuple(case["f"]), tuple(case["ts"]), tuple(case["data"]), routes=True, deep=True)
     elif kind == "srv17":
         check_srv17(rec, tuple(case["f"]), tuple(case["ts"]), tuple(case["data"]), deep=True)
+    elif kind == "defaults":
+        check_defaults(rec, case["ctor"], case["k"], case["T"], case["mask"], case["round"])
+    elif kind == "history":
+        run_history(rec, case["k"], case["T"], case["mode"], list(case["events"]))
     elif kind == "oversize":
         check_oversize(rec, case["T"], case["extra"], case["idx"])
     elif kind == "range":
@@ -571,5 +1010,9 @@ def finalize(tier, agg):
         "reject_timestamp_lengths": REJECT_T,
         "backgrounds": _k(tier),
         "deviation_bound": "d=1 full alphabets in K backgrounds; d=2, d=3 over edge alphabets; d=8 over the 4-value alphabets",
+        "histories": {"depth": h_depth(tier), "event_menu": H_EVENTS, "start_states": H_MODES, "timestamp_lengths": H_TS[tier],
+                      "executed": c.get("histories_depth_%d" % h_depth(tier), 0), "states": c.get("history_states", 0),
+                      "transitions": c.get("history_events_applied", 0)},
+        "independence": {"results_held": c.get("independence_results_held", 0), "reobservations": c.get("independence_reobservations", 0)},
         "observed_outcomes": sorted(agg["outcomes"])[:60],
     }
